@@ -223,8 +223,12 @@ def check_atom(rec, name, sub, *, nearmiss=False):
 
 
 def clear_caches():
-    Atom.for_isotope.cache_clear()
-    ScatteringParams.for_isotope.cache_clear()
+    """Clear every lru_cache of the atoms module (public lookups and private loaders alike)."""
+    import scippneutron.atoms as _atoms
+
+    for obj in (Atom.for_isotope, ScatteringParams.for_isotope, *vars(_atoms).values()):
+        if hasattr(obj, 'cache_clear'):
+            obj.cache_clear()
 
 
 def run_rows(case, rec):
